@@ -15,32 +15,39 @@
       "does not panic"), the disconnect loop of MoveToBlock (`failed_reorg_no_residue_partial`), one successful
       iteration of ParseTillBlock (`replay_inv_connect`); DeleteBranch does not touch map / undo files / tip
       (`deleteBranch_keeps_map`); and for the model's actual `deliver`: `reorg_inv_partial` — the invariant holds after
-      EVERY fork-free delivery sequence (each block on the then-current tip: accepted, rejected as invalid, or duplicate);
+      EVERY fork-free delivery sequence (each block on the then-current tip: accepted, rejected as invalid, or duplicate)
+      — superseded by `reorg_inv` below, kept because its hypotheses are weaker (no block-tree assumption);
     * decision logic of deliveries (known block, orphan, extension accepted / rejected), exactness/asymmetry of the
       work comparison, and the counterexample showing that the tie-break after a failed reorganisation is NOT
       "first seen" (known finding, reproduced on the real code).
 
-  -- OPEN: reorg_inv : ∀ deliveries, Inv (run deliveries)  with
-  --   Inv c := (∃ fl path, PathOK c fl path) ∧ tip is a maximum-work valid leaf (first seen among equals)
-  --   Proved: `reorg_inv_partial` (fork-free histories) + the step theorems below.
-  --   What is missing for the first conjunct: deliveries on side branches, i.e. the composition of the proved steps through the mutual recursion
-  --   moveTo / parseTill / afterFail inside `deliver` — it needs tree well-formedness (unique ids, child height =
-  --   parent height + 1, childs ↔ parent consistency) to show (a) that FindPathTo's next block hangs below the tip at
-  --   height LastBlockHeight+1, (b) that the path ids differ from the common block / from a new block's id,
-  --   (c) that DeleteBranch's subtree is disjoint from the active path (keeps `Linked`), and (d) BIP30 freshness of
-  --   every stored block (an assumption on the delivered blocks); and connects deeper than UnwindBufLen below the
-  --   target (no undo data written) are outside `replay_inv_connect`.  The second conjunct (most work; the documented
-  --   first-seen caveats are the two known findings) is not proved at all: it is covered by the correspondence run
-  --   with the independent reference predicate only.
-  -- OPEN: failed_reorg_no_residue (full: after a reorganisation that fails at its n-th block the map equals the
-  --   replay of the branch the node ends on) — proved part: `failed_reorg_no_residue_partial` + `replay_inv_connect`
-  --   + `deleteBranch_keeps_map`; missing: the same composition as for reorg_inv.
+    * ALL HISTORIES (third pass): `reorg_inv` — after ANY finite sequence of deliveries drawn from a block tree `U`
+      (`BlockTree`: ids determine blocks, no empty block, valid bits, BIP30 freshness along every branch of `U`, no branch
+      longer than the 2560-block unwind window) the state satisfies `ChainInv`: tree well-formed (`TreeWF`), unspent map =
+      replay of the active branch with every undo file in place (`PathOK`, floor 0), and the tip is a maximum-work node
+      (`MaxWork`, exact rationals; `tip_has_max_work`); `deliver_keeps_invariant` — one delivery of any kind keeps the
+      invariant, never panics (incl. never exhausting `fuelOf`), and moves the tip only to the delivered block or in the
+      fall-back of a failed reorganisation; `tie_keeps_first_seen` — a side block without strictly more work never moves
+      the tip; `failed_reorg_no_residue` — MoveToBlock from any invariant state to any node: no panic, map = replay of the
+      branch it ends on, target reached with the tree untouched or (after a failure) tip = maximum-work node of the
+      remaining tree; `morePOW_compares_work`, `farthest_is_max_work`.
+      Proof: Proofs/C06Tree (tree as a partial function, ancestors, heights < #nodes), C06Work (Q in ℚ), C06MorePow,
+      C06Farthest, C06Climb (MoveToBlock's loops, FindPathTo), C06Wf + C06Delete (TreeWF preserved; `subtree` = descendants),
+      C06Reorg (mutual induction over the fuel for ParseTillBlock / fall-back / MoveToBlock with a quadratic fuel measure),
+      C06Deliver (one delivery; induction over the history).
+  What the statement does NOT cover (assumptions of `BlockTree`, all explicit): branches longer than 2560 blocks (undo data
+  not written for the early blocks of a long ParseTillBlock, undo files pruned and keyed by height only); blocks re-using a
+  txid that is still unspent on their own branch; the code's float64 work sums (the model compares exact rationals — known
+  finding float-work-exact-tie); "first seen" among equal-work leaves after a FAILED reorganisation (FindFarthestNode takes
+  the first child — `tie_after_failed_reorg_counterexample`, known finding).
 -/
 import GocoinV.Model.ChainTree
 import GocoinV.Proofs.C06Utxo
 import GocoinV.Proofs.C06Chain
 import GocoinV.Proofs.C06Commit
 import GocoinV.Proofs.C06Path
+import GocoinV.Proofs.C06Deliver
+import GocoinV.Proofs.C06Example
 namespace GocoinV.Props.C06
 open GocoinV.UtxoOps GocoinV.ChainTree
 
@@ -57,9 +64,9 @@ theorem undo_commit (u : DB) (txids : List Nat) (ch : Changes) (hv : ValidChange
 /-- The same at the level of the abstraction `abs : DB → (OutPoint ⇀ Coin)`: disconnecting a block restores every
 output it spent and removes every output it created. -/
 theorem undo_commit_abs (u : DB) (txids : List Nat) (ch : Changes) (hv : ValidChanges u txids ch) :
-    ∀ t v, abs (undoBlock (commit u ch) txids ch.undo) t v = abs u t v := by
+    ∀ t v, UtxoOps.abs (undoBlock (commit u ch) txids ch.undo) t v = UtxoOps.abs u t v := by
   intro t v
-  unfold abs unspentGet
+  unfold UtxoOps.abs unspentGet
   rw [undo_commit u txids ch hv t]
 
 /-- `undo_commit` with its hypothesis in the executable form that the oracle evaluates for every block the model
@@ -226,7 +233,7 @@ three climbing loops find, then `MoveToBlock` does not panic while disconnecting
 ParseTillBlock from a state whose unspent map is exactly the replay of `post` (tip = common block, LastBlockHeight =
 |post|, undo files of `post` intact, tree and block store untouched). Together with `replay_inv_connect` (each block
 connected afterwards) and `deleteBranch_keeps_map` (a block that fails) this covers every step of a completed or
-failed reorganisation; their composition through the mutual recursion is the OPEN part. -/
+failed reorganisation; they are composed through the mutual recursion in `failed_reorg_no_residue` below. -/
 theorem failed_reorg_no_residue_partial (f : Nat) (c : Chain) (fl : Nat) (pre post : List PE) (dst : Nat)
     (d lb cur lb2 anc : Node)
     (h : PathOK c fl (pre ++ post)) (hfl : post.length ≥ fl)
@@ -246,8 +253,7 @@ sequence of deliveries in which each block names the then-current tip as its par
 duplicate — the state after the whole sequence satisfies the invariant for some active branch: the unspent map equals the
 replay of that branch from the empty map, tip / LastBlockHeight / tree links / stored blocks are consistent with it, every
 undo file above the floor holds the undo data of the active block at that height, and the tip node's height is the
-branch length. Missing for the full reorg_inv: deliveries on side branches (stored aside, or triggering MoveToBlock),
-see the OPEN note at the top. -/
+branch length. (All histories, incl. side branches and reorganisations: `reorg_inv` below, under the `BlockTree` assumptions.) -/
 theorem reorg_inv_partial (r bits : Nat) (bs : List Block) (h : OnTip (ChainTree.init r bits) bs) :
     ∃ fl path, PathOKH (bs.foldl (fun c b => (deliver c b).1) (ChainTree.init r bits)) fl path :=
   deliver_all_on_tip bs _ 0 [] (init_pathH r bits) h
@@ -265,6 +271,111 @@ theorem deleteBranch_keeps_map (c : Chain) (id : Nat) :
     (deleteBranch c id).tip = c.tip ∧ (deleteBranch c id).lastHeight = c.lastHeight := by
   have := deleteBranch_fields c id
   exact ⟨this.1, this.2.1, this.2.2.1, this.2.2.2.1⟩
+
+-- ------------------------------------------------------------------------------------------ all histories
+
+/-- the invariant of the chain state w.r.t. the block tree `U` the deliveries are drawn from: the tree is well-formed
+(`TreeWF`), the unspent map is the replay of the active branch with tip / LastBlockHeight / links / stored blocks / every
+undo file consistent (`PathOK` with floor 0, tip node height = branch length), and the tip is a maximum-work node
+(`MaxWork`, exact rational work). -/
+structure ChainInv (U : List Block) (c : Chain) : Prop where
+  wf : TreeWF U c
+  path : ∃ path, PathOK c 0 path ∧ ∃ t, getNode c c.tip = some t ∧ t.height = path.length
+  maxw : MaxWork c
+
+theorem chainInv_iff {U : List Block} {c : Chain} (hU : BlockTree c.root U) : ChainInv U c ↔ Inv U c := by
+  constructor
+  · rintro ⟨w, hp, hm⟩; exact ⟨w, hp, (MaxW_iff w hU).mp hm⟩
+  · rintro ⟨w, hp, hm⟩; exact ⟨w, hp, (MaxW_iff w hU).mpr hm⟩
+
+/-- **One delivery, any kind.** From a state satisfying the invariant, delivering ANY block of the block tree — a
+duplicate, an orphan, a block too deep below the tip, a tip extension (accepted, or rejected by any `commitTxs` error), a
+side block that is stored aside, or a side block with more work that triggers MoveToBlock and is reached, or whose
+branch turns out invalid while being connected (DeleteBranch + fall-back to FindFarthestNode) — (a) never panics (no nil
+node, no missing block or undo file, and the fuel `fuelOf` is never exhausted), (b) gives a state that again satisfies the
+whole invariant: well-formed tree, unspent map = replay of the active branch, tip = a maximum-work node of the tree, and
+(c) moves the tip only to the delivered block itself or — outcome `moveFailed` — in the fall-back after a failed
+reorganisation. -/
+theorem deliver_keeps_invariant (U : List Block) (c : Chain) (hi : ChainInv U c) (hU : BlockTree c.root U)
+    (b : Block) (hb : b ∈ U) :
+    ChainInv U (deliver c b).1 ∧ (∀ s, (deliver c b).2 ≠ Outcome.panic s) ∧
+    ((deliver c b).1.tip = c.tip ∨ (deliver c b).1.tip = b.id ∨ (deliver c b).2 = Outcome.moveFailed) := by
+  obtain ⟨h1, h2, h3, h4⟩ := deliver_inv ((chainInv_iff hU).mp hi) hU b hb
+  exact ⟨(chainInv_iff (by rw [h2]; exact hU)).mpr h1, h3, h4⟩
+
+/-- **reorg_inv — after ANY sequence of deliveries.** Let `U` be a block tree (`BlockTree`: ids determine blocks, no
+empty block, valid bits, BIP30 freshness along every branch, no branch longer than the 2560-block unwind window) and `ds`
+ANY finite sequence of deliveries of blocks of `U` — any order, repetitions, children before parents, competing branches,
+branches that turn out invalid only when they are connected. Then the state reached from the initial one satisfies the
+invariant: the tree is well-formed, the unspent map equals (as a partial function) the replay from the empty map of an
+active branch that is linked from the tip to the root, with LastBlockHeight = its length, every block stored and every
+undo file in place — and the tip is a maximum-work node: no node of the tree (i.e. no known, fully stored block not yet
+found invalid) has more cumulative work, compared exactly. -/
+theorem reorg_inv (r bits : Nat) (U ds : List Block) (hbits : bits % 0x1000000 ≠ 0) (hU : BlockTree r U)
+    (hds : ∀ b ∈ ds, b ∈ U) :
+    ChainInv U (ds.foldl (fun c b => (deliver c b).1) (ChainTree.init r bits)) := by
+  obtain ⟨h1, h2⟩ := deliver_all_inv ds (ChainTree.init r bits) (init_inv U r bits hbits) hU hds
+  exact (chainInv_iff (by rw [h2]; exact hU)).mpr h1
+
+/-- **The tip is a maximum-work valid leaf** (second half of the property, for the model's exact rational work): after
+any sequence of deliveries drawn from a block tree, no node the chain knows has more cumulative work than the tip.
+(Nodes of the model's tree are exactly the known blocks that are fully stored and have not been found invalid: an
+invalid block is removed with its descendants when it is found. Work grows strictly along a branch, so "every node" and
+"every leaf" are the same statement.) Ties: see `tie_keeps_first_seen` and `tie_after_failed_reorg_counterexample`. -/
+theorem tip_has_max_work (r bits : Nat) (U ds : List Block) (hbits : bits % 0x1000000 ≠ 0) (hU : BlockTree r U)
+    (hds : ∀ b ∈ ds, b ∈ U) :
+    MaxWork (ds.foldl (fun c b => (deliver c b).1) (ChainTree.init r bits)) :=
+  (reorg_inv r bits U ds hbits hU hds).maxw
+
+/-- **First seen wins ties when a block is delivered**: a side block whose cumulative work (its parent's work plus its own
+difficulty, exact) is NOT strictly greater than the tip's leaves the tip where it is — so among equal-work branches the
+one that was there first stays, until a delivery with strictly more work arrives. (The only other way the tip moves is
+the fall-back after a FAILED reorganisation, `deliver_keeps_invariant` (c); there FindFarthestNode's first-child rule
+decides ties — `tie_after_failed_reorg_counterexample`, known finding; the code's float64 sums are outside the model —
+known finding float-work-exact-tie.) -/
+theorem tie_keeps_first_seen (U : List Block) (c : Chain) (hi : ChainInv U c) (hU : BlockTree c.root U)
+    (b : Block) (hb : b ∈ U) (p t : Node) (hnew : getNode c b.id = none) (hp : getNode c b.parent = some p)
+    (ht : getNode c c.tip = some t) (hside : c.tip ≠ b.parent)
+    (hle : ((workOf c p).add (difficulty b.bits)).gt (workOf c t) = false) :
+    (deliver c b).1.tip = c.tip :=
+  deliver_keeps_tip ((chainInv_iff hU).mp hi) hU b hb p t hnew hp ht hside hle
+
+/-- **failed_reorg_no_residue (full).** From any state satisfying the invariant, `MoveToBlock(dst)` for any node `dst`
+of the tree — run with the fuel a delivery gives it — does not panic, and the state it ends in satisfies "unspent map =
+replay of the branch the node ends on" (every disconnected block's effects are gone, every connected block's effects
+are there, nothing of a block that failed to connect or of its descendants remains: they are not on the branch), the
+tree is well-formed, and either the target was reached with the tree untouched or — a block on the way failed, was
+deleted with its descendants, and the fall-back ran — the tip is a maximum-work node of the remaining tree. -/
+theorem failed_reorg_no_residue (U : List Block) (c : Chain) (w : TreeWF U c) (path : List PE)
+    (hp : PathOK c 0 path) (t : Node) (ht : getNode c c.tip = some t) (hth : t.height = path.length)
+    (hU : BlockTree c.root U) (dst : Nat) (d : Node) (hd : getNode c dst = some d) :
+    ∃ c' path', moveTo (fuelOf c) c dst = .ok c' ∧ PathOK c' 0 path' ∧ c'.tip = headId c' path' ∧ TreeWF U c' ∧
+      ((c'.tip = dst ∧ c'.nodes = c.nodes) ∨ MaxWork c') := by
+  obtain ⟨c', path', g1, g2, g3, g4, g5⟩ := (reorg_specs U (fuelOf c)).2.2 c dst d path w ⟨hp, t, ht, hth⟩ hU hd (fuelOf_enough c)
+  refine ⟨c', path', g1, g3.1, g3.1.tip, g2, ?_⟩
+  rcases g5 with h | h
+  · exact Or.inl h
+  · exact Or.inr ((MaxW_iff g2 (by rw [g4]; exact hU)).mpr h)
+
+/-- **MorePOW compares exact cumulative work** (the comparison CommitBlock uses to decide on a reorganisation): in a
+well-formed tree `b1.MorePOW(b2)` holds iff the cumulative work of `b1` is strictly greater than that of `b2`. -/
+theorem morePOW_compares_work (U : List Block) (c : Chain) (w : TreeWF U c) (hU : BlockTree c.root U) (x1 x2 : Nat)
+    (b1 b2 : Node) (h1 : getNode c x1 = some b1) (h2 : getNode c x2 = some b2) :
+    morePOW c b1 b2 = (workOf c b1).gt (workOf c b2) := by
+  have := morePOW_spec w hU h1 h2
+  rw [← workOf_gt_iff w hU h1 h2] at this
+  cases h : morePOW c b1 b2 <;> cases h' : (workOf c b1).gt (workOf c b2) <;> simp_all
+
+/-- **FindFarthestNode (from the root) returns a maximum-work node**: the fall-back target after a failed reorganisation
+is a node of the tree with at least the cumulative work of every node of the tree. -/
+theorem farthest_is_max_work (U : List Block) (c : Chain) (w : TreeWF U c) (hU : BlockTree c.root U) (r : Node)
+    (hr : getNode c c.root = some r) :
+    ∃ nL, getNode c (farthest c (c.nodes.length + 1) r).1 = some nL ∧
+      ∀ x n, getNode c x = some n → (workOf c n).gt (workOf c nL) = false := by
+  obtain ⟨r', hr', _, hrb⟩ := w.root
+  rw [hr] at hr'; cases hr'
+  obtain ⟨nL, h1, h2⟩ := farthest_spec w hU hr hrb
+  exact ⟨nL, h1, fun x n hn => (workOf_not_gt_iff w hU hn h1).mpr (h2 x n hn)⟩
 
 -- ------------------------------------------------------------------------------------------ the tie-break counterexample
 
@@ -336,6 +447,44 @@ example : ∃ (c : Chain) (b : Block), (getNode c b.id).isSome = true :=
 
 example : ∃ (c : Chain) (b : Block), getNode c b.id = none ∧ getNode c b.parent = none :=
   ⟨ChainTree.init 100 easyBits, { id := 5, parent := 4, bits := 0, txs := [] }, by decide, by decide⟩
+
+-- non-vacuity of the all-histories theorems: the block tree `exU` (Proofs/C06Example: x1 on the root; a2 and b2 on x1; b3 on
+-- b2; b2 invalid once connected) satisfies `BlockTree`; delivering x1, a2, b2, b3 stores b2 aside (tie), tries to reorganise
+-- to b3, fails at b2 and falls back to a2
+
+def exRun (ds : List Block) : Chain := ds.foldl (fun c b => (deliver c b).1) (ChainTree.init 0 exBits)
+
+-- reorg_inv / tip_has_max_work: hypotheses hold, and the history contains a failed reorganisation
+example : exBits % 0x1000000 ≠ 0 ∧ BlockTree 0 exU ∧ (∀ b ∈ exU, b ∈ exU) ∧
+    (exRun (exU.take 3)).tip = 2 ∧ (deliver (exRun (exU.take 3)) (exU.getD 3 default)).2.name = "movefailed" ∧
+    (exRun exU).tip = 2 ∧ ((exRun exU).nodes.map (·.id)) = [0, 1, 2] :=
+  ⟨by decide, exU_blockTree, fun _ h => h, by decide +kernel, by decide +kernel, by decide +kernel, by decide +kernel⟩
+
+theorem exInv (ds : List Block) (h : ∀ b ∈ ds, b ∈ exU) : ChainInv exU (exRun ds) :=
+  reorg_inv 0 exBits exU ds (by decide) exU_blockTree h
+
+theorem exRoot (ds : List Block) (h : ∀ b ∈ ds, b ∈ exU) : (exRun ds).root = 0 :=
+  (deliver_all_inv ds (ChainTree.init 0 exBits) (init_inv exU 0 exBits (by decide)) exU_blockTree h).2
+
+theorem exTake (n : Nat) : ∀ b ∈ exU.take n, b ∈ exU := fun _ h => List.mem_of_mem_take h
+
+-- deliver_keeps_invariant: a state with the invariant, the block tree, and a block that triggers the failed reorganisation
+example : ∃ (c : Chain) (b : Block), ChainInv exU c ∧ BlockTree c.root exU ∧ b ∈ exU ∧ (deliver c b).2.name = "movefailed" :=
+  ⟨exRun (exU.take 3), exU.getD 3 default, exInv _ (exTake 3), by rw [exRoot _ (exTake 3)]; exact exU_blockTree,
+   by simp [exU], by decide +kernel⟩
+
+-- tie_keeps_first_seen: after x1, a2 the block b2 (same work as the tip a2) arrives on the side branch
+example : ∃ (c : Chain) (b : Block) (p t : Node), ChainInv exU c ∧ BlockTree c.root exU ∧ b ∈ exU ∧
+    getNode c b.id = none ∧ getNode c b.parent = some p ∧ getNode c c.tip = some t ∧ c.tip ≠ b.parent ∧
+    ((workOf c p).add (difficulty b.bits)).gt (workOf c t) = false :=
+  ⟨exRun (exU.take 2), exU.getD 2 default, _, _, exInv _ (exTake 2), by rw [exRoot _ (exTake 2)]; exact exU_blockTree,
+   by simp [exU], by decide +kernel, by rfl, by rfl, by decide +kernel, by decide +kernel⟩
+
+-- failed_reorg_no_residue / morePOW_compares_work / farthest_is_max_work: the state after x1, a2, b2, b3-less: MoveToBlock(b2)
+example : ∃ (c : Chain) (path : List PE) (t d r : Node), TreeWF exU c ∧ PathOK c 0 path ∧ getNode c c.tip = some t ∧
+    t.height = path.length ∧ BlockTree c.root exU ∧ getNode c 3 = some d ∧ getNode c c.root = some r := by
+  obtain ⟨w, ⟨path, hp, t, ht, hth⟩, _⟩ := exInv (exU.take 3) (exTake 3)
+  exact ⟨exRun (exU.take 3), path, t, _, _, w, hp, ht, hth, by rw [exRoot _ (exTake 3)]; exact exU_blockTree, by rfl, by rfl⟩
 
 -- non-vacuity of the hypotheses of the replay-invariant theorems
 
